@@ -27,6 +27,25 @@ package websocket
 //@   goroutine summary
 
 //@ spec fn joined(h *RealtimeHandler) bool = h.currentSession != nil && h.currentParticipant != nil
+// ---- C03: two sessions' object graphs are separate, and what the members of a session can observe ----
+//@ spec fn sepSessions(a *models.Session, b *models.Session) bool = a != b
+//@     && a.participants != b.participants && a.entities != b.entities && a.moduleStates != b.moduleStates && a.frameHandlers != b.frameHandlers
+//@     && a.entityComponents != b.entityComponents && (a.entityIDs.reusableIDs != b.entityIDs.reusableIDs || a.entityIDs.reusableIDs == nil) && (a.participantIDs.reusableIDs != b.participantIDs.reusableIDs || a.participantIDs.reusableIDs == nil)
+//@     && a.entityComponents.entityComponents != b.entityComponents.entityComponents && a.entityComponents.subscriptions != b.entityComponents.subscriptions
+//@     && a.entityComponents.nameIndex != b.entityComponents.nameIndex && a.entityComponents.idIndex != b.entityComponents.idIndex
+//@     && (a.entityComponents.ids.reusableIDs != b.entityComponents.ids.reusableIDs || a.entityComponents.ids.reusableIDs == nil)
+//@     && (forall t1: uint32, t2: uint32 :: t1 in a.entityComponents.entityComponents && t2 in b.entityComponents.entityComponents ==> a.entityComponents.entityComponents[t1] != b.entityComponents.entityComponents[t2])
+//@     && (forall t1: uint32, t2: uint32 :: t1 in a.entityComponents.subscriptions && t2 in b.entityComponents.subscriptions ==> a.entityComponents.subscriptions[t1] != b.entityComponents.subscriptions[t2])
+//@     && (forall e1: uint32, e2: uint32 :: e1 in a.entities && e2 in b.entities ==> a.entities[e1] != b.entities[e2])
+//@     && (forall p1: uint32, p2: uint32 :: p1 in a.participants && p2 in b.participants ==> a.participants[p1] != b.participants[p2] && (a.participants[p1].entityIDs != b.participants[p2].entityIDs || a.participants[p1].entityIDs == nil))
+//@ spec fn obsSame(o *models.Session) bool = same_contents(o.participants, o.entities, o.moduleStates, o.entityIDs.reusableIDs, o.participantIDs.reusableIDs)
+//@     && unchanged(o.entityIDs.currentID, o.participantIDs.currentID, o.ID, o.SessionUUID, o.entityComponents, o.entityComponents.ids.currentID)
+//@     && unchanged(o.participants, o.entities, o.moduleStates, o.frameHandlers, o.entityIDs.reusableIDs, o.participantIDs.reusableIDs, o.entityComponents.entityComponents, o.entityComponents.subscriptions, o.entityComponents.nameIndex, o.entityComponents.idIndex, o.entityComponents.ids.reusableIDs)
+//@     && same_contents(o.entityComponents.entityComponents, o.entityComponents.subscriptions, o.entityComponents.nameIndex, o.entityComponents.idIndex, o.entityComponents.ids.reusableIDs)
+//@     && (forall t: uint32 :: t in o.entityComponents.entityComponents ==> same_contents(o.entityComponents.entityComponents[t]))
+//@     && (forall t: uint32 :: t in o.entityComponents.subscriptions ==> same_contents(o.entityComponents.subscriptions[t]))
+//@     && (forall e: uint32 :: e in o.entities ==> unchanged(o.entities[e].ParticipantID, o.entities[e].Flag, o.entities[e].Persist, o.entities[e].pose.PX, o.entities[e].pose.PY, o.entities[e].pose.PZ, o.entities[e].pose.RX, o.entities[e].pose.RY, o.entities[e].pose.RZ, o.entities[e].pose.RW))
+//@     && (forall p: uint32 :: p in o.participants ==> same_contents(o.participants[p].entityIDs) && unchanged(o.participants[p].entityIDs, o.participants[p].ID, o.participants[p].Responder))
 // What SESSION_STATE hands to a joiner (C01): exactly the members, exactly the entities with owner, flag
 // and latest pose, exactly the stored components.
 //@ spec fn snapParts(s *models.Session, ps []*hagallpb.Participant) bool = len(ps) == len(s.participants)
@@ -55,6 +74,7 @@ package websocket
 //@   modifies {C03} contents(h.currentSession.entities), contents(h.currentParticipant.entityIDs), all contents(map[uint32]*hagallpb.EntityComponent @ models.EntityComponentStore.entityComponents[]), all ghost.*
 //@   allocates
 //@   ensures {C03} forall m: map[uint32]*hagallpb.EntityComponent @ models.EntityComponentStore.entityComponents[] :: joined(h) && (forall t: uint32 :: t in h.currentSession.entityComponents.entityComponents ==> h.currentSession.entityComponents.entityComponents[t] != m) ==> same_contents(m)
+//@   ensures {C03} forall o: *models.Session :: o != nil && !fresh(o) && old(joined(h) && sepSessions(h.currentSession, o)) ==> obsSame(o) && sepSessions(h.currentSession, o)
 //@   behaviour undecodable:
 //@     assumes !decode_ok(msg)
 //@     ensures {C04} result != nil && unchanged_world()
@@ -86,6 +106,7 @@ package websocket
 //@   requires respond != nil
 //@   modifies {C03} all ghost.*
 //@   allocates
+//@   ensures {C03} forall o: *models.Session :: o != nil && !fresh(o) && old(joined(h) && sepSessions(h.currentSession, o)) ==> obsSame(o) && sepSessions(h.currentSession, o)
 //@   behaviour undecodable:
 //@     assumes !decode_ok(msg)
 //@     ensures result != nil && unchanged_world()
@@ -108,6 +129,7 @@ package websocket
 //@   ensures wfHandler(h)
 //@   modifies {C03} h.currentSession.entityIDs.currentID, contents(h.currentSession.entityIDs.reusableIDs), contents(h.currentSession.entities), h.currentParticipant.entityIDs, contents(h.currentParticipant.entityIDs), all ghost.*
 //@   allocates
+//@   ensures {C03} forall o: *models.Session :: o != nil && !fresh(o) && old(joined(h) && sepSessions(h.currentSession, o)) ==> obsSame(o) && sepSessions(h.currentSession, o)
 //@   behaviour undecodable:
 //@     assumes !decode_ok(msg)
 //@     ensures {C04} result != nil && unchanged_world()
@@ -139,6 +161,7 @@ package websocket
 //@   ensures wfHandler(h)
 //@   modifies {C03} h.currentSession.entities[decoded(msg, hagallpb.EntityUpdatePose).EntityId].pose, all ghost.*
 //@   allocates
+//@   ensures {C03} forall o: *models.Session :: o != nil && !fresh(o) && old(joined(h) && sepSessions(h.currentSession, o)) ==> obsSame(o) && sepSessions(h.currentSession, o)
 //@   behaviour undecodable:
 //@     assumes !decode_ok(msg)
 //@     ensures result != nil && unchanged_world()
@@ -178,6 +201,7 @@ package websocket
 //@   ensures unchanged_world()
 //@   modifies {C03} all ghost.*
 //@   allocates
+//@   ensures {C03} forall o: *models.Session :: o != nil && !fresh(o) && old(joined(h) && sepSessions(h.currentSession, o)) ==> obsSame(o) && sepSessions(h.currentSession, o)
 //@   behaviour undecodable:
 //@     assumes !decode_ok(msg)
 //@     ensures result != nil
@@ -215,6 +239,7 @@ package websocket
 //@   ensures wfHandler(h)
 //@   modifies {C03} h.currentSession.entityComponents.ids.currentID, contents(h.currentSession.entityComponents.ids.reusableIDs), contents(h.currentSession.entityComponents.nameIndex), contents(h.currentSession.entityComponents.idIndex), all ghost.*
 //@   allocates
+//@   ensures {C03} forall o: *models.Session :: o != nil && !fresh(o) && old(joined(h) && sepSessions(h.currentSession, o)) ==> obsSame(o) && sepSessions(h.currentSession, o)
 //@   behaviour undecodable:
 //@     assumes !decode_ok(msg)
 //@     ensures result != nil && unchanged_world()
@@ -248,6 +273,7 @@ package websocket
 //@   ensures unchanged_world()
 //@   modifies {C03} all ghost.*
 //@   allocates
+//@   ensures {C03} forall o: *models.Session :: o != nil && !fresh(o) && old(joined(h) && sepSessions(h.currentSession, o)) ==> obsSame(o) && sepSessions(h.currentSession, o)
 //@   behaviour undecodable:
 //@     assumes !decode_ok(msg)
 //@     ensures result != nil
@@ -280,6 +306,7 @@ package websocket
 //@   ensures unchanged_world()
 //@   modifies {C03} all ghost.*
 //@   allocates
+//@   ensures {C03} forall o: *models.Session :: o != nil && !fresh(o) && old(joined(h) && sepSessions(h.currentSession, o)) ==> obsSame(o) && sepSessions(h.currentSession, o)
 //@   behaviour undecodable:
 //@     assumes !decode_ok(msg)
 //@     ensures result != nil
@@ -315,6 +342,7 @@ package websocket
 //@   ensures wfHandler(h)
 //@   modifies {C03} contents(h.currentSession.entityComponents.entityComponents), contents(h.currentSession.entityComponents.entityComponents[decoded(msg, hagallpb.EntityComponentAddRequest).EntityComponentTypeId]), all ghost.*
 //@   allocates
+//@   ensures {C03} forall o: *models.Session :: o != nil && !fresh(o) && old(joined(h) && sepSessions(h.currentSession, o)) ==> obsSame(o) && sepSessions(h.currentSession, o)
 //@   behaviour undecodable:
 //@     assumes !decode_ok(msg)
 //@     ensures result != nil && unchanged_world()
@@ -359,6 +387,7 @@ package websocket
 //@   ensures wfHandler(h)
 //@   modifies {C03} contents(h.currentSession.entityComponents.entityComponents[decoded(msg, hagallpb.EntityComponentDeleteRequest).EntityComponentTypeId]), all ghost.*
 //@   allocates
+//@   ensures {C03} forall o: *models.Session :: o != nil && !fresh(o) && old(joined(h) && sepSessions(h.currentSession, o)) ==> obsSame(o) && sepSessions(h.currentSession, o)
 //@   behaviour undecodable:
 //@     assumes !decode_ok(msg)
 //@     ensures result != nil && unchanged_world()
@@ -399,6 +428,7 @@ package websocket
 //@   ensures wfHandler(h)
 //@   modifies {C03} contents(h.currentSession.entityComponents.entityComponents[decoded(msg, hagallpb.EntityComponentUpdate).EntityComponentTypeId]), all ghost.*
 //@   allocates
+//@   ensures {C03} forall o: *models.Session :: o != nil && !fresh(o) && old(joined(h) && sepSessions(h.currentSession, o)) ==> obsSame(o) && sepSessions(h.currentSession, o)
 //@   behaviour undecodable:
 //@     assumes !decode_ok(msg)
 //@     ensures result != nil && unchanged_world()
@@ -435,6 +465,7 @@ package websocket
 //@   ensures unchanged_world()
 //@   modifies {C03} all ghost.*
 //@   allocates
+//@   ensures {C03} forall o: *models.Session :: o != nil && !fresh(o) && old(joined(h) && sepSessions(h.currentSession, o)) ==> obsSame(o) && sepSessions(h.currentSession, o)
 //@   behaviour undecodable:
 //@     assumes !decode_ok(msg)
 //@     ensures result != nil
@@ -464,6 +495,7 @@ package websocket
 //@   ensures wfHandler(h)
 //@   modifies {C03} contents(h.currentSession.entityComponents.subscriptions), contents(h.currentSession.entityComponents.subscriptions[decoded(msg, hagallpb.EntityComponentTypeSubscribeRequest).EntityComponentTypeId]), all ghost.*
 //@   allocates
+//@   ensures {C03} forall o: *models.Session :: o != nil && !fresh(o) && old(joined(h) && sepSessions(h.currentSession, o)) ==> obsSame(o) && sepSessions(h.currentSession, o)
 //@   behaviour undecodable:
 //@     assumes !decode_ok(msg)
 //@     ensures result != nil && unchanged_world()
@@ -503,6 +535,7 @@ package websocket
 //@   ensures wfHandler(h)
 //@   modifies {C03} contents(h.currentSession.entityComponents.subscriptions[decoded(msg, hagallpb.EntityComponentTypeUnsubscribeRequest).EntityComponentTypeId]), all ghost.*
 //@   allocates
+//@   ensures {C03} forall o: *models.Session :: o != nil && !fresh(o) && old(joined(h) && sepSessions(h.currentSession, o)) ==> obsSame(o) && sepSessions(h.currentSession, o)
 //@   behaviour undecodable:
 //@     assumes !decode_ok(msg)
 //@     ensures result != nil && unchanged_world()
@@ -530,6 +563,7 @@ package websocket
 //@   ensures unchanged_world()
 //@   modifies {C03} all ghost.*, all chan.*
 //@   allocates
+//@   ensures {C03} forall o: *models.Session :: o != nil && !fresh(o) && old(joined(h) && sepSessions(h.currentSession, o)) ==> obsSame(o) && sepSessions(h.currentSession, o)
 //@   behaviour undecodable:
 //@     assumes !decode_ok(msg)
 //@     ensures result != nil
@@ -572,7 +606,7 @@ package websocket
 //@   ensures h.currentSession == nil && h.currentParticipant == nil && wfRegistry(h.Sessions)
 //@   ensures {C07,C01} forall g: string :: S != nil && g != gid(serverid(R.DiscoveryService), S.ID) ==> ((g in R.sessions) <==> old(g in R.sessions)) && (g in R.sessions ==> R.sessions[g] == old(R.sessions[g]))
 //@   ensures unchanged(R.sessions, R.DiscoveryService, R.ids.currentID) && (once_done(R.initOnce) <==> old(once_done(R.initOnce)))
-//@   trusted_ensures forall g: string :: S != nil && g != gid(serverid(R.DiscoveryService), S.ID) && old(g in R.sessions) && old(wfSession(R.sessions[g])) ==> wfSession(old(R.sessions[g])) && same_contents(old(R.sessions[g]).participants, old(R.sessions[g]).entities) && unchanged(old(R.sessions[g]).participantIDs.currentID, old(R.sessions[g]).frameHandlerIDs.currentID, old(R.sessions[g]).ID)
+//@   ensures {C03} forall o: *models.Session :: o != nil && !fresh(o) && old(joined(h) && sepSessions(h.currentSession, o)) ==> obsSame(o) && sepSessions(S, o) && (old(wfSession(o)) ==> wfSession(o))
 //@   behaviour not_joined:
 //@     assumes !joined(h)
 //@     ensures unchanged_world()
@@ -598,6 +632,7 @@ package websocket
 //@   loop 2:
 //@     invariant wfSession(S) && member(S, P) && wfRegistry(R) && registered(R, S)
 //@     invariant unchanged(h.currentSession, h.currentParticipant, h.Sessions, h.FeatureFlags, h.stopFrameHandling)
+//@     invariant {C03} forall o: *models.Session :: o != nil && !fresh(o) && old(joined(h) && sepSessions(h.currentSession, o)) ==> obsSame(o) && sepSessions(S, o) && (old(wfSession(o)) ==> wfSession(o))
 //@     invariant forall k: uint32 :: k in V ==> k in P.entityIDs
 //@     invariant forall m: map[uint32]*models.Entity @ models.Session.entities :: m != S.entities ==> same_contents(m)
 //@     invariant forall e: uint32 :: (e in S.entities) <==> (old(e in S.entities) && !(e in V && old(gone(S, P.ID, e))))
@@ -614,6 +649,7 @@ package websocket
 //@   requires joined(h) ==> registered(h.Sessions, h.currentSession)
 //@   requires forall j: int :: 0 <= j && j < len(h.Modules) ==> h.Modules[j] != nil
 //@   ensures {C06,C08} h.currentSession == nil && h.currentParticipant == nil
+//@   ensures {C03} forall o: *models.Session :: o != nil && !fresh(o) && old(joined(h) && sepSessions(h.currentSession, o)) ==> obsSame(o)
 //@   behaviour not_joined:
 //@     assumes !joined(h)
 //@     ensures unchanged_world()
@@ -636,10 +672,12 @@ package websocket
 //@   requires wfHandler(h) && wfRegistry(h.Sessions) && respond != nil
 //@   requires found ==> wfSession(T) && T.participantIDs.currentID < 4294967295 && T.frameHandlerIDs.currentID < 4294967295
 //@   requires joined(h) ==> registered(h.Sessions, h.currentSession)
+//@   requires {C03} joined(h) && found && !already ==> sepSessions(h.currentSession, T)
 //@   requires forall j: int :: 0 <= j && j < len(h.Modules) ==> h.Modules[j] != nil
 //@   requires h.FrameDuration > 0 && h.Sessions.ids.currentID < 4294967295
 //@   ensures wfHandler(h) && wfRegistry(h.Sessions)
 //@   ensures {C07,C01} joined(h) ==> registered(h.Sessions, h.currentSession)
+//@   ensures {C03} forall o: *models.Session :: o != nil && !fresh(o) && old(joined(h) ==> sepSessions(h.currentSession, o)) && old(found ==> sepSessions(T, o)) ==> obsSame(o) && (joined(h) ==> sepSessions(h.currentSession, o))
 //@   behaviour undecodable:
 //@     assumes !decode_ok(msg)
 //@     ensures {C04} result != nil && unchanged_world()
@@ -679,6 +717,7 @@ package websocket
 //@   complete behaviours
 //@   disjoint behaviours
 //@   loop 1:
+//@     invariant {C03} forall o: *models.Session :: o != nil && !fresh(o) && old(joined(h) ==> sepSessions(h.currentSession, o)) && old(found ==> sepSessions(T, o)) ==> obsSame(o) && (joined(h) ==> sepSessions(h.currentSession, o))
 //@     invariant -1 <= $rangeindex && $rangeindex < len(h.Modules)
 
 // ---------------------------------------------------------------------------------------------
@@ -955,6 +994,7 @@ package websocket
 //@   requires h.currentParticipant != nil ==> h.currentParticipant.SignedLatency != nil
 //@   modifies {C03} all models.SignedLatency.*, all ghost.*
 //@   allocates
+//@   ensures {C03} forall o: *models.Session :: o != nil && !fresh(o) && old(joined(h) && sepSessions(h.currentSession, o)) ==> obsSame(o) && sepSessions(h.currentSession, o)
 //@   behaviour undecodable:
 //@     assumes !decode_ok(msg)
 //@     ensures result != nil && unchanged_world()
@@ -986,6 +1026,7 @@ package websocket
 //@   requires h.currentParticipant != nil ==> h.currentParticipant.SignedLatency != nil && (req.RequestId in h.currentParticipant.SignedLatency.PingRequests ==> h.currentParticipant.SignedLatency.sender != nil) && len(h.currentParticipant.SignedLatency.PingRequests) < 4294967296 && forall k: uint32 :: pending(h.currentParticipant.SignedLatency, k) ==> h.currentParticipant.SignedLatency.Iteration >= 1
 //@   modifies {C03} all models.SignedLatency.*, all ghost.*
 //@   allocates
+//@   ensures {C03} forall o: *models.Session :: o != nil && !fresh(o) && old(joined(h) && sepSessions(h.currentSession, o)) ==> obsSame(o) && sepSessions(h.currentSession, o)
 //@   behaviour undecodable:
 //@     assumes !decode_ok(msg)
 //@     ensures result != nil && unchanged_world()
